@@ -1320,3 +1320,171 @@ func ruleR0413(c *Ctx) {
 	}
 	c.OK("funcGen#generate-time-code", token.NoPos, "%d generate-time function bodies examined (closures that run during evaluation excluded): %d single-value type assertions on language values", nBodies, nAssert)
 }
+
+// ---------------------------------------------------------------------------
+// R04.15 the recursive descent hands the error of a nested call up unchanged
+//
+// An error wrapper of this code base (EnhanceErrorf, fmt.Errorf with %w/%v)
+// copies the text of its cause when the message is formatted. If a function of
+// the recursive descent wraps the error of a nested parse call, an error found
+// d levels deep is wrapped d times and formatting it copies O(d^2) bytes;
+// Generate formats the parser's error eagerly, and d grows linearly with the
+// length of the input ("[[[[[..."): parsing is no longer linear-ish.
+
+func ruleR0415(c *Ctx) {
+	root := c.Pkg("")
+	if root == nil {
+		c.Undecided("package parser2", token.NoPos, "not found")
+		return
+	}
+	info := root.TypesInfo
+	decls := map[*types.Func]*ast.FuncDecl{}
+	takesTokenizer := func(sig *types.Signature) bool {
+		for i := 0; i < sig.Params().Len(); i++ {
+			t := sig.Params().At(i).Type()
+			if p, ok := t.(*types.Pointer); ok {
+				t = p.Elem()
+			}
+			if isNamed(t, modPath, "Tokenizer") {
+				return true
+			}
+		}
+		return false
+	}
+	returnsError := func(sig *types.Signature) bool {
+		return sig.Results().Len() > 0 && isErrorType(sig.Results().At(sig.Results().Len()-1).Type())
+	}
+	for _, f := range root.Syntax {
+		for _, d := range f.Decls {
+			if fd, ok := d.(*ast.FuncDecl); ok && fd.Body != nil && fd.Recv != nil && recvTypeName(fd.Recv.List[0].Type) == "Parser" {
+				if obj, ok := info.Defs[fd.Name].(*types.Func); ok {
+					sig := obj.Type().(*types.Signature)
+					if takesTokenizer(sig) && returnsError(sig) {
+						decls[obj.Origin()] = fd
+					}
+				}
+			}
+		}
+	}
+	// call graph among the parse functions; a call of a function value with a parse signature may reach any of them
+	succ := map[*types.Func]map[*types.Func]bool{}
+	isParseCall := func(call *ast.CallExpr) (target *types.Func, dynamic bool, ok bool) {
+		if cal := Callee(info, call); cal != nil {
+			if decls[cal.Origin()] != nil {
+				return cal.Origin(), false, true
+			}
+			return nil, false, false
+		}
+		if sig, isSig := info.TypeOf(call.Fun).Underlying().(*types.Signature); isSig && takesTokenizer(sig) && returnsError(sig) {
+			return nil, true, true
+		}
+		return nil, false, false
+	}
+	for fn, fd := range decls {
+		succ[fn] = map[*types.Func]bool{}
+		ast.Inspect(fd.Body, func(x ast.Node) bool {
+			if call, ok := x.(*ast.CallExpr); ok {
+				if t, dyn, ok := isParseCall(call); ok {
+					if dyn {
+						for g := range decls {
+							succ[fn][g] = true
+						}
+					} else {
+						succ[fn][t] = true
+					}
+				}
+			}
+			return true
+		})
+	}
+	reaches := func(from, to *types.Func) bool {
+		seen := map[*types.Func]bool{}
+		var walk func(f *types.Func) bool
+		walk = func(f *types.Func) bool {
+			for g := range succ[f] {
+				if g == to {
+					return true
+				}
+				if !seen[g] {
+					seen[g] = true
+					if walk(g) {
+						return true
+					}
+				}
+			}
+			return false
+		}
+		return walk(from)
+	}
+	recursive := map[*types.Func]bool{}
+	for fn := range decls {
+		if reaches(fn, fn) {
+			recursive[fn] = true
+		}
+	}
+	if len(recursive) < 5 {
+		c.Undecided("parser2.Parser#recursive-descent", token.NoPos, "only %d mutually recursive parse functions found", len(recursive))
+		return
+	}
+	n := 0
+	for fn, fd := range decls {
+		if !recursive[fn] {
+			continue
+		}
+		name := declName(root, fd)
+		// error variables that hold the error of a nested (recursive) parse call
+		nested := map[types.Object]ast.Node{}
+		ast.Inspect(fd.Body, func(x ast.Node) bool {
+			as, ok := x.(*ast.AssignStmt)
+			if !ok || len(as.Rhs) != 1 {
+				return true
+			}
+			call, ok := ast.Unparen(as.Rhs[0]).(*ast.CallExpr)
+			if !ok {
+				return true
+			}
+			t, dyn, ok := isParseCall(call)
+			if !ok || (!dyn && !recursive[t]) {
+				return true
+			}
+			if id, ok := as.Lhs[len(as.Lhs)-1].(*ast.Ident); ok && id.Name != "_" {
+				nested[info.ObjectOf(id)] = call
+			}
+			return true
+		})
+		k := 0
+		ast.Inspect(fd.Body, func(x ast.Node) bool {
+			r, ok := x.(*ast.ReturnStmt)
+			if !ok || len(r.Results) == 0 {
+				return true
+			}
+			last := ast.Unparen(r.Results[len(r.Results)-1])
+			call, ok := last.(*ast.CallExpr)
+			if !ok {
+				return true
+			}
+			// a call that gets the nested error as an argument builds a new error around it
+			var wrapped types.Object
+			for _, a := range call.Args {
+				if id, ok := ast.Unparen(a).(*ast.Ident); ok {
+					if _, isNested := nested[info.ObjectOf(id)]; isNested {
+						// the variable must still hold the nested error here: the return is guarded by err != nil of it
+						wrapped = info.ObjectOf(id)
+					}
+				}
+			}
+			if wrapped == nil {
+				return true
+			}
+			k++
+			n++
+			key := fmt.Sprintf("%s#wraps-nested-error[%d]", name, k)
+			c.Violation(key, r.Pos(), "the error %s of a nested call of the recursive descent (%s) is wrapped in a new error (%s) before it is handed up: an error found d levels deep is wrapped d times, and every wrapper copies the text of its cause when the message is built - formatting it takes time and memory quadratic in the nesting depth, which grows linearly with the input", wrapped.Name(), nodeStr(c.Fset, nested[wrapped]), nodeStr(c.Fset, call.Fun))
+			return true
+		})
+		if k == 0 {
+			n++
+			c.OK(name+"#nested-errors-unchanged", fd.Pos(), "errors of nested parse calls are returned as they are")
+		}
+	}
+}
